@@ -93,3 +93,44 @@ package model
 //@ func (*Target).GetAbsOutputPath(t, output) (r)
 //@   pure
 //@   ensures [under_package] r == pathJoin(config.Global.WorkspaceRoot, pathJoin(t.Label.Package, output.Identifier))
+
+// C11: "a duplicate label" is rejected: if a node map is returned, every target and alias of every package is the node
+// stored under its own label - two different nodes with one label cannot both be.
+//@ func (*Package).GetTargets(p) (r)
+//@   trusted
+//@   pure
+//@   ensures [named] r == pkgTargets(p) && len(r) >= 0
+
+//@ func (*Package).GetAliases(p) (r)
+//@   trusted
+//@   pure
+//@   ensures [named] r == pkgAliases(p) && len(r) >= 0
+
+//@ func BuildNodeMapFromPackages(packages) (m, err)
+//@   pure
+//@   allocates m
+//@   ensures [every_target_registered] err == nil ==> forall i int, j int :: {pkgTargets(packages[i])[j]} 0 <= i && i < len(packages) && 0 <= j && j < len(pkgTargets(packages[i])) ==>
+//@        has(m, pkgTargets(packages[i])[j].Label) && m[pkgTargets(packages[i])[j].Label] == iface(pkgTargets(packages[i])[j], "*model.Target")
+//@   ensures [every_alias_registered] err == nil ==> forall i int, j int :: {pkgAliases(packages[i])[j]} 0 <= i && i < len(packages) && 0 <= j && j < len(pkgAliases(packages[i])) ==>
+//@        has(m, pkgAliases(packages[i])[j].Label) && m[pkgAliases(packages[i])[j].Label] == iface(pkgAliases(packages[i])[j], "*model.Alias")
+//@ loop #1
+//@   invariant [map] nodes != nil
+//@   invariant [packages_so_far] (forall i int, j int :: {pkgTargets(packages[i])[j]} 0 <= i && i <= rangeindex && 0 <= j && j < len(pkgTargets(packages[i])) ==>
+//@        has(nodes, pkgTargets(packages[i])[j].Label) && nodes[pkgTargets(packages[i])[j].Label] == iface(pkgTargets(packages[i])[j], "*model.Target")) &&
+//@        (forall i int, j int :: {pkgAliases(packages[i])[j]} 0 <= i && i <= rangeindex && 0 <= j && j < len(pkgAliases(packages[i])) ==>
+//@        has(nodes, pkgAliases(packages[i])[j].Label) && nodes[pkgAliases(packages[i])[j].Label] == iface(pkgAliases(packages[i])[j], "*model.Alias"))
+//@ loop #2
+//@   invariant [map] nodes != nil && ranged() == pkgTargets(pkg)
+//@   invariant [packages_before] (forall i int, j int :: {pkgTargets(packages[i])[j]} 0 <= i && i < rangeindex#1 && 0 <= j && j < len(pkgTargets(packages[i])) ==>
+//@        has(nodes, pkgTargets(packages[i])[j].Label) && nodes[pkgTargets(packages[i])[j].Label] == iface(pkgTargets(packages[i])[j], "*model.Target")) &&
+//@        (forall i int, j int :: {pkgAliases(packages[i])[j]} 0 <= i && i < rangeindex#1 && 0 <= j && j < len(pkgAliases(packages[i])) ==>
+//@        has(nodes, pkgAliases(packages[i])[j].Label) && nodes[pkgAliases(packages[i])[j].Label] == iface(pkgAliases(packages[i])[j], "*model.Alias"))
+//@   invariant [targets_so_far] forall j int :: {pkgTargets(pkg)[j]} 0 <= j && j <= rangeindex ==> has(nodes, pkgTargets(pkg)[j].Label) && nodes[pkgTargets(pkg)[j].Label] == iface(pkgTargets(pkg)[j], "*model.Target")
+//@ loop #3
+//@   invariant [map] nodes != nil && ranged() == pkgAliases(pkg)
+//@   invariant [packages_before] (forall i int, j int :: {pkgTargets(packages[i])[j]} 0 <= i && i < rangeindex#1 && 0 <= j && j < len(pkgTargets(packages[i])) ==>
+//@        has(nodes, pkgTargets(packages[i])[j].Label) && nodes[pkgTargets(packages[i])[j].Label] == iface(pkgTargets(packages[i])[j], "*model.Target")) &&
+//@        (forall i int, j int :: {pkgAliases(packages[i])[j]} 0 <= i && i < rangeindex#1 && 0 <= j && j < len(pkgAliases(packages[i])) ==>
+//@        has(nodes, pkgAliases(packages[i])[j].Label) && nodes[pkgAliases(packages[i])[j].Label] == iface(pkgAliases(packages[i])[j], "*model.Alias"))
+//@   invariant [targets_done] forall j int :: {pkgTargets(pkg)[j]} 0 <= j && j < len(pkgTargets(pkg)) ==> has(nodes, pkgTargets(pkg)[j].Label) && nodes[pkgTargets(pkg)[j].Label] == iface(pkgTargets(pkg)[j], "*model.Target")
+//@   invariant [aliases_so_far] forall j int :: {pkgAliases(pkg)[j]} 0 <= j && j <= rangeindex ==> has(nodes, pkgAliases(pkg)[j].Label) && nodes[pkgAliases(pkg)[j].Label] == iface(pkgAliases(pkg)[j], "*model.Alias")
